@@ -18,6 +18,7 @@ EXTENDS FlwCleanQ, Json, IOUtils
 Rec == ndJsonDeserialize(IOEnv.TRACE)
 TrK == atoi(IOEnv.K)
 TrM == atoi(IOEnv.M)
+TrDirect == IOEnv.DIRECT = "1" 
 VARIABLE l
 tvars == <<vars, l>>
 E == Rec[l]
@@ -30,12 +31,12 @@ Match(e) == Has(e, "obs") => (ObsPlain(e) = plain' /\ ObsGz(e) = gz')
 ParkOf == CASE cst' = "got" -> "sc:cleanup_act"
             [] cst' = "wait" -> "sc:cleanup_wait"
             [] cst' = "dead" -> "exit"
-            [] cst' = "run" -> IF Head(snap').pos >= K + M THEN "fs:remove"
+            [] cst' = "run" -> IF Head(snap').pos >= KK + M THEN "fs:remove"
                                ELSE CASE zs' = 0 -> "fs:gz_create" [] zs' = 1 -> "fs:gz_copy"
                                       [] zs' = 2 -> "fs:gz_finish" [] OTHER -> "fs:remove_orig"
 
 TInit == Init /\ l = 1
-Reset == /\ plain' = {} /\ gz' = {} /\ nrot' = 0 /\ chan' = <<>> /\ cst' = "wait" /\ snap' = <<>> /\ zs' = 0
+Reset == /\ plain' = (IF Direct THEN {0} ELSE {}) /\ gz' = {} /\ nrot' = 0 /\ chan' = <<>> /\ cst' = "wait" /\ snap' = <<>> /\ zs' = 0
          /\ app' = "run" /\ hist' = <<>>
 TNext ==
     /\ l <= Len(Rec) /\ l' = l + 1
@@ -47,7 +48,7 @@ TNext ==
                                /\ Match(e) /\ e.at = ParkOf
             [] e.ev = "ShutdownBegin" -> Shutdown /\ Match(e)
             [] e.ev = "ShutdownEnd" -> Join /\ Match(e) /\ C07_LimitsAtShutdown'
-            [] OTHER -> UNCHANGED vars /\ Match(e)
+            [] OTHER -> UNCHANGED vars
     /\ IF l = Len(Rec) THEN PrintT(<<"CONSUMED", l>>) ELSE TRUE
 TSpec == TInit /\ [][TNext]_tvars
 =============================================================================
